@@ -49,7 +49,7 @@ class SV:
 
 SORT_OF_KIND = {'int': Int, 'bool': Bool, 'ppat': PPat, 'mpat': MPat, 'idl': IdL, 'pmap': PMap, 'mmap': MMap,
                 'name': Int, 'intset': z3.SetSort(Int), 'term': Term, 'tlist': TL, 'mlist': ML,
-                'stack': TL, 'mem': TL, 'claims': ML, 'str': IdL, 'char': Int, 'intlist': IdL}
+                'stack': TL, 'mem': TL, 'claims': ML, 'str': IdL, 'char': Int, 'intlist': IdL, 'plist': PTL, 'pclaims': PCL, 'bytes': IdL}
 
 
 class Obligation:
@@ -76,6 +76,7 @@ class Ctx:
         self.notes = []
         self.known_ctor = {}    # z3 ast id -> ctor name (facts already on the path)
         self.covers = []        # reachability covers
+        self.lemma_deps = set()
 
     # ---- symbols ------------------------------------------------------------------------------------------
     def fresh(self, kind, hint='v', meta=None):
@@ -92,6 +93,11 @@ class Ctx:
         if z3.is_true(cond):
             return
         self.pc.append(cond)
+
+    def lemma_fact(self, lemma_name, formula):
+        """Add an instance of a library lemma to the path condition (the run fails if that lemma is not proved in this run)."""
+        self.lemma_deps.add(lemma_name)
+        self.pc.append(formula)
 
     def check_feasible(self):
         if not solve.feasible(self.pc):
